@@ -211,7 +211,7 @@ func main() {
 	// ---- (ii) plans: clone entry points and reports.Render
 	for i := 0; i < *nPlans; i++ {
 		r := root.Fork(uint64(5000000 + i))
-		pc := &planCase{r: r, tab: NewTable(), recs: map[*workflow.Action]*actRec{}, PMethods: []float64{0.3, 0.1, 0.5}[i%3]}
+		pc := &planCase{r: r, tab: NewTable(), recs: map[*workflow.Action]*actRec{}, PMethods: []float64{0.3, 0.1, 0.5}[i%3], AllPlanGroups: i%2 == 0}
 		pc.tg = &TypeGen{r: r, MaxDepth: 1 + i%*maxDepth, PSecure: 0.35, PSecretName: 0.1, AllowArray: i%4 == 3}
 		pc.vg = &ValGen{r: r, PNil: 0.1}
 		pc.build([]float64{0.2, 0.5, 0.9}[i%3])
@@ -274,6 +274,19 @@ func main() {
 				}
 				return x, []*workflow.Action{x}, false
 			})
+		}
+		if pc.AllPlanGroups {
+			// WithRemoveCompletedSequences, alone and with WithKeepState (plans with State everywhere and all four plan-level groups)
+			for _, ks := range []bool{false, true} {
+				term, ob, ok := pc.removeCompletedCase(ks)
+				if !ok {
+					continue
+				}
+				w.Put(core.Case{ID: fmt.Sprintf("clone-%d-removecompleted-%v", i, ks), Kind: "clone-removecompleted", Coq: term, Nontrivial: ob.NSecret > 0, Hash: core.Hash(term),
+					Dist:     map[string]any{"entry": "plan+removeCompleted", "keep_state": ks, "actions": ob.Kept, "secure_leaves": ob.NSecret, "plain": 0, "dropped": ob.Dropped, "nil_actions": ob.NilActs, "blocks": ob.Blocks},
+					Input:    map[string]any{"seed": core.Seed(), "plan": i, "entry": "clone.Plan(WithRemoveCompletedSequences)", "keep_state": ks, "types": pc.typesOf(actionsOfPlan(p))},
+					Observed: ob})
+			}
 		}
 		term, ob := pc.renderCase(planTerm)
 		w.Put(core.Case{ID: fmt.Sprintf("render-%d", i), Kind: "render", Coq: term, Nontrivial: ob.NSecret > 0, Hash: core.Hash(term),
